@@ -15,7 +15,9 @@ claimed = {
  "C12": ("exploration", "Hostile authenticated raw-frame client (grammar over the generic object and directory actions, mutation of valid frames at every 32-bit field, floods, stall, graceful and mid-frame disconnect) against a full directory server + probe service, followed by a fresh client that must be answered by every object within bounded simulated time; server crashes, deadlocks and fatal runtime errors (worker under an address-space limit) are violations; three sub-batches (no-stall, stall, mutation).", "4/C12", TECH),
  "C13": ("exploration", "Subscribe / cancel / re-subscribe / emit histories by several subscribers (shared and own connections and proxies) and one emitter under seeded schedules; per-subscription oracle bounded by acknowledgement and cancel request (no miss, no duplicate, order, no foreign signal, channel closed) plus a wire tap for 'no event after the unregister acknowledgement'; violation classes name their cause, three of them are known findings.", "4/C13", TECH),
  "C14": ("exploration", "Concurrent get / set (valid, rejected, wrongly typed, by name and by id) / service-side update histories by several clients; porcupine linearizability against a typed-register model, declared-type check on raw reads, exactly-one-event-per-accepted-write accounting per subscriber.", "4/C14", TECH),
+ "C15": ("exploration", "Two or three remote directory clients (register, ready, unregister, update, lookup, list over a universe of three names) plus the hosting process calling Server.NewService / Service.Terminate, under statement-granularity preemption raised in bus/directory and bus/server; porcupine linearizability against a sequential registry model that validates observed outcomes (ids strictly increasing, names unique, visibility from ready to unregister, updates cannot rename); event ledger taken from the subscriber's connection; a sequential-conformance sub-batch.", "4/C15", TECH),
  "C16": ("exploration", "Add / remove / remote terminate / call histories on one service with concurrent actors; reference model of live objects: identifier uniqueness, termination hook exactly once, subscribers told, calls invoked after a removal returned are refused without reaching the object, live objects keep answering.", "4/C16", TECH),
+ "C19": ("exploration", "One session shared by 2-6 goroutines requesting proxies and objects of services behind the directory's endpoint and one or two further servers (real session, directory, services.NewServer stack over the simulated network), statement-granularity preemption raised in bus/session; crash capture including mutex-misuse fatals, working-proxy check, open connections of the session per endpoint counted on the simulated network.", "4/C19", TECH),
  "C17": ("exploration", "MakeHandler / RemoveHandler / self-removing filters / traffic / Close / peer close raced on one real endpoint under statement-granularity preemption; harness-owned closers and queues count closes; captured panics and pending operations at quiescence are violations.", "4/C17", TECH),
 }
 na_pure = {
